@@ -60,8 +60,20 @@ def run_find_property(pid, tier, seed, replay, propfiles, flavors, ncases, rule,
         E = FG.ElemIds()
         lits = []
         results = []
-        for c, s, kind in cases:
+        for ci, (c, s, kind) in enumerate(cases):
             try:
+                if ci % 5 == 3 and kind != "replay" and not c.get("pre"):
+                    # the same Atoms object was searched before, when it had another cell and other elements: nothing of that may survive
+                    c = FG.restored_case(c)
+                    kind = kind + "+reused-object"
+                    run.count("reused-object(restored)")
+                    cases[ci] = (c, s, kind)
+                elif ci % 5 == 1 and kind != "replay" and len(c["pel"]) > 1 and not c.get("pre"):
+                    # searched once as planted, then the cell is enlarged in place: copies across a face are gone, nothing stale may be reported
+                    c = FG.grown_case(c)
+                    kind = kind + "+cell-enlarged-after-search"
+                    run.count("reused-object(cell enlarged)")
+                    cases[ci] = (c, s, kind)
                 res = FG.run_find(c, s)
             except Exception as e:   # noqa
                 found_input = True
